@@ -41,19 +41,22 @@ namespace log
         template <typename... Sinks>
         class sequence
         {
-            static std::tuple<Sinks...> sinks;
+            // constructed on first use: a record logged from a static initialiser must not
+            // reach member sinks whose constructors have not run yet
+            static std::tuple<Sinks...>& sinks()
+            {
+                static std::tuple<Sinks...> instance;
+                return instance;
+            }
 
         public:
             void sink(severity_level sev, const std::string& formatted_record)
             {
-                lang::tuple_foreach(sinks, [&sev, &formatted_record](auto& sink) {
+                lang::tuple_foreach(sinks(), [&sev, &formatted_record](auto& sink) {
                     sink.sink(sev, formatted_record);
                 });
             }
         };
-
-        template <typename... Sinks>
-        std::tuple<Sinks...> sequence<Sinks...>::sinks;
     } // namespace sink
 } // namespace log
 } // namespace nitro
